@@ -29,13 +29,22 @@ type result struct {
 	Fired    bool     `json:"fired"`
 	SemAcc   bool     `json:"sem_accepted"`
 	Kind     string   `json:"kind"`
+	Panic    string   `json:"panic,omitempty"` // the plain-grammar parser panicked on this text
 	RefAcc   bool     `json:"ref_accepted"` // the Go mirror of the parser model over the grammar tables (used by the failing-input search only)
 }
 
 // parseWithProbes parses text with a private BQL() whose every clause has a ProcessStart probe.
-func parseWithProbes(g *gram.G, text string) (bool, [][2]int) {
+// lastPanic: set when the real parser panicked on the text just parsed (reported per result, then cleared).
+var lastPanic string
+
+func parseWithProbes(g *gram.G, text string) (acc bool, trace [][2]int) {
+	defer func() {
+		if r := recover(); r != nil {
+			acc = false
+			lastPanic = fmt.Sprint(r)
+		}
+	}()
 	bql := grammar.BQL()
-	var trace [][2]int
 	for s, cls := range *bql {
 		for i, c := range cls {
 			si, ai := g.SymIdx[string(s)], i
@@ -72,7 +81,9 @@ func run(g *gram.G, kind string, sym, alt int, toks []int) result {
 	text := gram.Render(toks)
 	r := result{Sym: sym, Alt: alt, Intended: toks, Text: text, Kind: kind}
 	r.Lexed = gram.LexKinds(text)
+	lastPanic = ""
 	r.Accepted, r.Trace = parseWithProbes(g, text)
+	r.Panic = lastPanic
 	for _, t := range r.Trace {
 		if t[0] == sym && t[1] == alt {
 			r.Fired = true
